@@ -680,7 +680,8 @@ class Discharger:
                         return "audit: nth(len-1) with len returned by lexical parse_partial on the same cursor's slice [trusted: len <= slice length]"
                 # ArrayVec error queue overflow path (R12.5)
                 # (the idiom is about operations on one fixed-capacity ArrayVec; it may live in the trait impl or in a helper)
-                if src[0] == "call" and "arrayvec::ArrayVec::" in (src[1] + " " + str(src[2])):
+                if (src[0] == "call" and "arrayvec::ArrayVec::" in (src[1] + " " + str(src[2]))) or "arrayvec::ArrayVec" in repr(src) or \
+                        (s.body.npath.endswith("ErrorQueue>::push_back_error") and "ArrayVec" in (s.body.impl_self or "")):
                     for c, v, _ in conds:
                         failed = (c[0] == "call" and c[1].split("::")[-1] == "is_err" and v is True and "try_push" in repr(c)) or \
                                  (c[0] == "call" and c[1].split("::")[-1] == "is_ok" and v is False and "try_push" in repr(c)) or \
